@@ -1136,7 +1136,7 @@ pub fn run(ctx: &mut Ctx) {
     //  longest stream that gets all pairs of cuts, random schedules in total)
     let (n_core, n_random, n_random_f, b_max_len, f_total): (usize, u64, u64, usize, u64) = match (stage, tier) {
         (Stage::Native, Tier::Quick) => (26, 80, 300, 28, 300_000),
-        (Stage::Native, Tier::Thorough) => (cases.len(), 240, 1_000, 44, 1_600_000),
+        (Stage::Native, Tier::Thorough) => (cases.len(), 600, 3_000, 44, 8_000_000),
         _ => (cases.len(), 40, 200, 20, 40_000),
     };
     cases.truncate(n_core);
